@@ -31,6 +31,8 @@ INSTANCES = {
     # a producer of a removable state and its dependant both selected as leaves (different workers take them first)
     "guigetx2": ("leaves..tutorial_gui.client_noop,leaves..tutorial_get.explicit_noop", "net1 net2", True),
     "guigetx3": ("leaves..tutorial_gui,leaves..tutorial_get.explicit_noop,leaves..tutorial_get.explicit_clicked", "net1 net2 net3", True),
+    # local and remote workers in one run (net variant names of different length)
+    "tut13mix": ("normal..tutorial1,normal..tutorial3", "cluster1.net6 net1 net2", True),
     "tut1c": ("normal..tutorial1", "cluster1.net6 cluster1.net7 cluster2.net6 cluster2.net7", True),
 }
 
@@ -163,7 +165,8 @@ class Campaign:
                     continue
                 ne = vd.get("next_event") or {}
                 rp = dict(inst.params)
-                rp.update(g["job"].get("run_params", {}))
+                if inst.lazy:
+                    rp.update(g["job"].get("run_params", {}))
                 retries = str(rp.get("max_tries", "1")) not in ("1", "0")
                 if retries and ({ne.get("x"), ne.get("y"), ne.get("t")} & objroots):
                     self.conformance["known_region"] += 1    # retries of an object creation: the known-findings region
